@@ -196,6 +196,19 @@ def build(flavor="san", quiet=True):
         lock.close()
 
 
+def statics_env(exe):
+    """VERIF_STATICS value for an `own` binary (watch list of the shared-memory oracle)."""
+    plain = build("plain")
+    names = sorted(set(w["sym"] for w in (lib_info(plain).get("writable_statics") or []) if not w["sym"].startswith("__")))
+    r = sh(["nm", "-S", exe])
+    items = []
+    for line in r.stdout.splitlines():
+        parts = line.split()
+        if len(parts) == 4 and parts[3] in names and parts[2] in "DdBb":
+            items.append("0x%s:%d:%s" % (parts[0], int(parts[1], 16), parts[3]))
+    return ",".join(items)
+
+
 def lib_info(exe):
     m = re.match(r".*htpsim-(\w+)-(\w+)-(\w+)$", exe)
     libdir = os.path.join(BUILD, "lib-%s-%s" % (m.group(1), m.group(2)))
